@@ -88,6 +88,8 @@ type fObs struct {
 	// hangAfter: the faulted command was answered, but the next command on the same client
 	// connection got neither a reply nor a close
 	hangAfter bool
+	// staleAfter: that next command (a get of a never-stored key) was answered with something other than a miss
+	staleAfter string
 	n1, n2    int
 	l1, l2    string
 	reads     [][2][]byte
@@ -153,8 +155,21 @@ func runFault(c fCase, arm bool) fObs {
 		if c.Proto == "text" {
 			g.Items[0].Opaque = 0
 		}
-		if _, _, err := cn.Exchange(enc(g), hangAfter); err != nil {
+		rep, cl, err := cn.Exchange(enc(g), hangAfter)
+		if err != nil {
 			o.hangAfter = true
+		} else if !cl {
+			// still open: the reply is that of THIS request - a miss - not a reply left over from the faulted command
+			okMiss := false
+			if c.Proto == "text" {
+				okMiss = string(rep) == "END\r\n"
+			} else {
+				okMiss = len(rep) >= 24 && rep[0] == 0x81 && rep[6] == 0 && rep[7] == 1 && rep[12] == 0 && rep[13] == 0 && rep[14] == 0 && rep[15] == 11 &&
+					int(rep[8])<<24|int(rep[9])<<16|int(rep[10])<<8|int(rep[11]) == len(rep)-24
+			}
+			if !okMiss {
+				o.staleAfter = fmt.Sprintf("%q", trunc(string(rep), 80))
+			}
 		}
 	}
 	cn.Close()
@@ -366,6 +381,11 @@ func c10(e *env, chunkedL1 bool) {
 			}
 			w.Fail(rig.GoFailure{Kind: "counterexample", What: "the client request neither completed nor was its connection closed within 15 s after a backend fault (hang)",
 				Input: c, Detail: fmt.Sprintf("%d reply bytes received", len(o.reply)), Tags: hangTags(c)})
+			continue
+		}
+		if o.staleAfter != "" {
+			w.Fail(rig.GoFailure{Kind: "counterexample", What: "after a backend fault was answered, the next command on the same client connection (a get of a never-stored key) was not answered with a miss: replies are out of step",
+				Input: c, Detail: o.staleAfter})
 			continue
 		}
 		if o.hangAfter {
